@@ -89,6 +89,9 @@ statechart:
             - event: go
               target: c1b
           - name: c1b
+            transitions:
+            - event: inc
+              target: c1h
           - name: c1h
             type: shallow history
             memory: c1a
@@ -111,7 +114,7 @@ statechart:
         action: x -= 100
 '''
 # a property statechart bound to the interpreter (part of what is snapshotted): it counts the consumed events in
-# its own context and becomes final at the fifth one - PropertyStatechartError must then be raised by the
+# its own context and becomes final at the seventh one - PropertyStatechartError must then be raised by the
 # original and by every restored copy at the same call
 PROP = '''
 statechart:
@@ -125,11 +128,12 @@ statechart:
       transitions:
       - event: event consumed
         action: seen += 1
-      - guard: seen >= 5
+      - guard: seen >= 7
         target: failed
     - name: failed
       type: final
 '''
+PREFIX = ('go', 'go', 'go', 'pause', 'resume')
 OPS = ['go', 'inc', 'pause', 'resume', 'bad', 'clock+2', 'step', 'job', 'job_d']
 _SC = []
 
@@ -238,6 +242,10 @@ def run(tier, seed):
     t0 = _time.time()
     D, C = BOUNDS[tier]
     hists = [h for d in range(0, D + 1) for h in itertools.product(OPS, repeat=d)]
+    # start from a non-initial state too: history memories recorded and restored once (the orthogonal state left
+    # with a non-default child, then re-entered through the deep history state); every history of length < D
+    # from there
+    hists += [PREFIX + h for d in range(0, D) for h in itertools.product(OPS, repeat=d)]
     nchunks = 16 * 6
     tasks = [(hists[i::nchunks], D, C) for i in range(nchunks)]
     results = harness.pmap(work, tasks)
@@ -260,7 +268,8 @@ def run(tier, seed):
         'outcomes': dict(agg.outcomes),
         'samples': [{'history': list(harness.pick_samples(OPS, seed + i, D)),
                      'continuation': list(harness.pick_samples(OPS, seed + 7 * i + 1, C))} for i in range(2)],
-        'rule': 'every op sequence of length <= D (snapshot boundary at its end) x every continuation of '
+        'rule': 'every op sequence of length <= D, and the prefix go,go,go,pause,resume followed by every sequence of '
+                'length < D (snapshot boundary at its end) x every continuation of '
                 'length C; snapshot by pickle round-trip and by copy.deepcopy; restored copies, the original '
                 'after snapshotting and a twin that never snapshotted compared step by step (macro step '
                 'summary, configuration, context, time, exception kind + failing condition)',
